@@ -1,7 +1,7 @@
 (* C08: witnesses for the reject law (a rejected request changed the store). *)
 From Coq Require Import ZArith NArith List Bool Lia.
 From Tinode Require Import Base.Util Pure.Acs Sys.Topic Sys.TopicTac Sys.TopicFrame Sys.TopicNum Sys.TopicNumThm Sys.TopicInst
-  Sys.TopicCoh Sys.TopicCohProofs Sys.TopicCohStep Sys.TopicCohRun Sys.TopicCohWit Sys.TopicCohReject.
+  Sys.TopicCohC08 Sys.TopicCohC08Proofs Sys.TopicCohC08Step Sys.TopicCohC08Run Sys.TopicCohC08Wit Sys.TopicCohC08Reject.
 Import ListNotations.
 Open Scope Z_scope.
 
